@@ -710,6 +710,7 @@ type Resp struct {
 
 	Rec    Record
 	Panic  interface{}
+	Hung   bool // the handler did not return within HangAfter
 	Calls  []string
 	Fired  string
 	Mails  []Mail
@@ -813,14 +814,16 @@ func (w *World) Do(q Req) *Resp {
 	rr := &recWriter{ResponseRecorder: httptest.NewRecorder()}
 	base := runtime.NumGoroutine()
 	out.T0 = time.Now()
-	func() {
-		defer func() {
-			if p := recover(); p != nil {
-				out.Panic = p
-			}
-		}()
-		w.Handler.ServeHTTP(rr, req)
-	}()
+	if !w.serve(out, rr, req) {
+		// the handler never came back: nothing of the recorder may be read
+		out.T1 = time.Now()
+		out.Hung = true
+		out.Fired = w.B.Fired
+		out.Calls = w.B.Snapshot()
+		w.B.Reset(FaultPlan{})
+		out.SessAfter, out.CookAfter = out.SessBefore, out.CookBefore
+		return out
+	}
 	out.T1 = time.Now()
 	if w.Cfg.MailGo {
 		deadline := time.Now().Add(2 * time.Second)
@@ -855,12 +858,16 @@ func (w *World) Do(q Req) *Resp {
 	return out
 }
 
-// doConcurrent is Do without the per-request bookkeeping that only makes
-// sense when requests are serialised (backend call lists, mail/log deltas).
-func (w *World) doConcurrent(out *Resp, jar *Jar, req *http.Request, rec *Record) *Resp {
-	rr := &recWriter{ResponseRecorder: httptest.NewRecorder()}
-	out.T0 = time.Now()
-	func() {
+// HangAfter is how long a request may take before it is declared hung (a
+// handler blocked for good, e.g. on a lock another request never released).
+// Generous: the slowest legitimate request hashes ten recovery codes (~1 s).
+var HangAfter = 30 * time.Second
+
+// serve runs the handler under a watchdog; false means it did not return in time.
+func (w *World) serve(out *Resp, rr *recWriter, req *http.Request) bool {
+	done := make(chan struct{})
+	go func() {
+		defer close(done)
 		defer func() {
 			if p := recover(); p != nil {
 				out.Panic = p
@@ -868,6 +875,27 @@ func (w *World) doConcurrent(out *Resp, jar *Jar, req *http.Request, rec *Record
 		}()
 		w.Handler.ServeHTTP(rr, req)
 	}()
+	t := time.NewTimer(HangAfter)
+	defer t.Stop()
+	select {
+	case <-done:
+		return true
+	case <-t.C:
+		return false
+	}
+}
+
+// doConcurrent is Do without the per-request bookkeeping that only makes
+// sense when requests are serialised (backend call lists, mail/log deltas).
+func (w *World) doConcurrent(out *Resp, jar *Jar, req *http.Request, rec *Record) *Resp {
+	rr := &recWriter{ResponseRecorder: httptest.NewRecorder()}
+	out.T0 = time.Now()
+	if !w.serve(out, rr, req) {
+		out.T1 = time.Now()
+		out.Hung = true
+		out.SessAfter, out.CookAfter = out.SessBefore, out.CookBefore
+		return out
+	}
 	out.T1 = time.Now()
 	out.Status, out.Wrote, out.Header, out.Body = rr.Code, rr.wrote, rr.Header(), rr.Body.Bytes()
 	if strings.HasPrefix(out.Header.Get("Content-Type"), "application/json") {
